@@ -243,6 +243,19 @@ func (tb *TB) lenSym(v ssa.Value) (string, int64, bool) {
 		sy, off := linear(tb.Term(ms.Len))
 		return sy, off, false
 	}
+	// x[a:b] with constant a and b (make([]T, 0, n) is new [n]T [:0])
+	if sl, ok := stripConv(v).(*ssa.Slice); ok && sl.High != nil {
+		if hi, ok := constInt(sl.High); ok {
+			lo := int64(0)
+			okLo := sl.Low == nil
+			if sl.Low != nil {
+				lo, okLo = constInt(sl.Low)
+			}
+			if okLo && hi >= lo {
+				return "0", hi - lo, false
+			}
+		}
+	}
 	return "len(" + tb.Term(v).Key() + ")", 0, false
 }
 
@@ -888,6 +901,14 @@ func (p *Program) BoundsOf(fn *ssa.Function) []*BoundOb {
 				// is known about the values (library contracts, lengths of fixed buffers)
 				if sy := tb.system(in); sy.implied("0", "0", -1) || fmInfeasible(sy.linCons()) {
 					ob.OK, ob.How = true, "unreachable: the guards in force contradict the known bounds of the values"
+				} else if os.Getenv("AGECHECK_DEBUG_BOUNDS") != "" {
+					fmt.Fprintf(os.Stderr, "bounds: %s\n", ob.Desc)
+					for _, c := range sy.cons {
+						fmt.Fprintf(os.Stderr, "    %s - %s <= %d\n", c.x, c.y, c.c)
+					}
+					for _, c := range sy.linCons() {
+						fmt.Fprintf(os.Stderr, "    lin %v\n", c)
+					}
 				}
 				out = append(out, ob)
 			}
